@@ -188,6 +188,7 @@ def c09(ctx: Ctx) -> None:
     RPA.rule_scaling_actions(ctx)
     RPA.rule_parse_entry(ctx)
     RPA.rule_infix_chain(ctx)
+    RPA.rule_number_token(ctx)
     RF.rule_no_global_mutation(ctx)
 
 
@@ -391,7 +392,7 @@ _reg(
 _reg(
     "C09", c09, "other",
     "static analysis: algebraic laws of the parser's data classes and of the relation translators, checked on generic symbolic records by a syntactic kernel interpreter (rational normal forms); path rule for error wrapping",
-    "Decides the arithmetic behind parsing, not the grammar's matching: negate/add/to_polyhedral_term of syntactic term lists, negate/to_term_list/is_positive of absolute terms (None = 1), _combine_optional_floats on its four cases, "
+    "Decides the arithmetic behind parsing and the number token, not the rest of the grammar's matching: the token that reads a number accepts exactly the documented spellings (its definition turned into a regular expression and compared with the reference on every string over {1 . e E + -} up to length 7); negate/add/to_polyhedral_term of syntactic term lists, negate/to_term_list/is_positive of absolute terms (None = 1), _combine_optional_floats on its four cases, "
     "_combine_or_append, expand = every +/- combination, '<=', '>=' (link by link) and '=' translated with the right direction and constant sign, negative absolute terms rejected with the convexity error before expansion (both relations), "
     "the three scaling parse actions multiply every numeric field, parse failures are wrapped into PolyhedralSyntaxException with parse_all=True, module-level grammar state is never written.",
     ["which strings the pyparsing grammar accepts and how tokens group (spacing, number spelling, chaining) is run-time matching and NOT decided - C09 is claimed for the arithmetic clause only"],
